@@ -13,6 +13,8 @@ EXPLANATION = (
     "RFC 9000 section 2.1; Add<usize> must saturate (saturating_add, then min with VarInt::MAX >> 2) and keep dir and "
     "initiator. Thorough tier adds compile-fail witnesses for constructor privacy. Decides the tables, not the "
     "value-level round trip.")
+# every anchor of these rules lives in the h3 crate: thorough tier repeats them on the feature-less build
+EXTRA_CONFIGS = ["h3-plain"]
 RULES = "C16-a varint form tables (A5/A6/A11); C16-b stream-id bit layout and saturating add; C16-c constructor privacy"
 
 V = "h3::proto::varint::VarInt"
